@@ -465,6 +465,17 @@ pub fn check(e: &Engine) {
 		&super::realjob::grace_strategy,
 		&super::realjob::run_grace,
 	);
+	e.explore(
+		"graceful-quit",
+		LegOpts::realtime(
+			e.tier.pick(48, 800),
+			16,
+			"the library's graceful quit (ActionHandler::quit_gracefully(signal, grace 600/1000 ms)) with 1-3 jobs running real processes (plain / grouped / session; exit on the signal, ignore it, or exit 20-900 ms later), requested in the action that created and started the jobs or in a later one: every process logs the requested signal first and within 0.5 s of the request (all jobs are signalled together), is not seen dead before the grace period is over unless it ends by itself (its own end record must exist), and is gone 1.5 s after min(grace, own end); main finishes",
+		),
+		&super::realjob::quit_strategy,
+		&super::realjob::run_quit,
+	);
+	e.require_label("graceful-quit", "quit-in-creating-action", 0.25);
 	e.require_label("real-process", "outlives-grace", 0.15);
 	e.require_label("real-process", "ends-within-grace", 0.15);
 	e.require_label("graceful", "reaction-within-1ms-of-deadline", 0.1);
